@@ -147,7 +147,7 @@ func c07driverSession(rng *vrng, evs []string) string {
 		return "setup-timeout"
 	}
 	// the greeting's own reading is pending on the channel already; push the script
-	var want []string
+	var want, got []string
 	seq := uint32(0)
 	for k, ev := range evs {
 		switch ev[0] {
@@ -167,13 +167,22 @@ func c07driverSession(rng *vrng, evs []string) string {
 		case 'k':
 			var id uint32
 			fmt.Sscanf(ev, "k%d", &id)
+			// the property is about keep-alives that find at most five earlier ones unacknowledged: the reader does not
+			// send a sixth before an acknowledgement has come back (on a loaded machine the write loop may lag)
+			for wait := time.After(3 * time.Second); len(want)-len(got) >= 5; {
+				select {
+				case f := <-r.frames:
+					got = append(got, fmt.Sprintf("%d:%d", f.typ, f.id))
+				case <-wait:
+					return fmt.Sprintf("frames=%s dropped= queued= ok=0 (five keep-alives unacknowledged for 3 s while EdgeX takes no readings)", strings.Join(got, ","))
+				}
+			}
 			if err := r.write(c14header(1, 62, 0, id)); err != nil {
 				return "write-failed"
 			}
 			want = append(want, fmt.Sprintf("72:%d", id))
 		}
 	}
-	var got []string
 	deadline := time.After(3 * time.Second)
 	for len(got) < len(want) {
 		select {
